@@ -75,7 +75,9 @@ def shards(tier):
             for lf in range(len(V.alphabet(k1, "key"))):
                 out.append({"part": "two", "kinds": [k1, k2], "mode": mode, "n": 2, "lfirst": lf})
             out.append({"part": "two", "kinds": [k1, k2], "mode": mode, "n": 1, "lfirst": None})
-    return out
+    from mc import harness
+    return harness.with_array_forms(out, tier, lambda sh: sh["part"] == "one" and sh["kind"] in ("f8", "str", "D") and not sh["renamed"]
+                                    and sh.get("lfirst") in (None, 0) and sh["n"] <= 3 and sh.get("asize", 3) == (3 if tier == "quick" else 4))
 
 
 def left_cols(keycols, n):
